@@ -31,23 +31,26 @@ PartSeqs(m) == {[i \in 1..m |-> [id |-> i, role |-> f[i].role, st |-> f[i].st]] 
 Configs == UNION {{[t |-> t, parts |-> ps, parent |-> 0] : t \in 0..(m + 1), ps \in PartSeqs(m)} : m \in Sizes}
 Blank == [n |-> 0, t |-> 0, act |-> <<>>, pend |-> <<>>, ver |-> 0, audit |-> <<>>, parent |-> 0]
 
-VARIABLES st, last
-vars == <<st, last>>
+VARIABLES mode, st, last
+vars == <<mode, st, last>>
 
-Init == \E cfg \in Configs : LET c == Create(Blank, cfg) IN
-          /\ c.r.cls = "Ok" /\ ActiveCount(c.s) >= c.s.t
-          /\ st = c.s /\ last = [op |-> "create", r |-> c.r, tok |-> "S"]
+Quorate(cfg) == LET c == Create(Blank, cfg) IN c.r.cls = "Ok" /\ ActiveCount(c.s) >= c.s.t
+AuditConfig == CHOOSE cfg \in Configs : Quorate(cfg)
+Init == /\ mode \in {"group", "audit"}
+        /\ \E cfg \in IF mode = "group" THEN Configs ELSE {AuditConfig} : LET c == Create(Blank, cfg) IN
+             /\ Quorate(cfg)
+             /\ st = c.s /\ last = [op |-> "create", r |-> c.r, tok |-> "S"]
 
-Do(x, op, tok) == st' = x.s /\ last' = [op |-> op, r |-> x.r, tok |-> tok]
+Do(x, op, tok) == st' = x.s /\ last' = [op |-> op, r |-> x.r, tok |-> tok] /\ UNCHANGED mode
 Mutators == {"mark", "suspend", "role", "threshold", "addpending"}
 Next ==
-  \/ /\ st.ver < MaxVer
+  \/ /\ mode = "group" /\ st.ver < MaxVer
      /\ \/ \E id \in ArgIds : Do(MarkForRemoval(st, id), "mark", "-")
         \/ \E id \in ArgIds, h \in HugeChoices : Do(Suspend(st, id, h), "suspend", "-")
         \/ \E id \in ArgIds, ro \in MCRoles : Do(UpdateRole(st, id, ro), "role", "-")
         \/ \E nt \in 0..(MaxSize + 1) : Do(UpdateThreshold(st, nt), "threshold", "-")
         \/ \E id \in NewIds : Do(AddPending(st, [id |-> id, role |-> [k |-> "Member", p |-> MemberFlags], st |-> "PendingJoin"]), "addpending", "-")
-  \/ \E tok \in Tokens : Do(AuditAdd(st, tok), "audit", tok)
+  \/ mode = "audit" /\ \E tok \in Tokens : Do(AuditAdd(st, tok), "audit", tok)
 Spec == Init /\ [][Next]_vars
 
 (* ---- invariants of the design ---- *)
